@@ -4,6 +4,7 @@ import Abmarl.Props.Corridor
 import Abmarl.Props.MultiGrid
 import Abmarl.Props.Reach
 import Abmarl.Props.Pacman
+import Abmarl.Props.Broadcast
 #print axioms Abmarl.fresh_twin_managers
 #print axioms Abmarl.mgr_reset_forgets
 #print axioms Abmarl.runOp_reset_eq
@@ -47,3 +48,5 @@ import Abmarl.Props.Pacman
 #print axioms Abmarl.pacman_reset_establishes
 #print axioms Abmarl.pacman_reset_forgets
 #print axioms Abmarl.pacman_fresh_twin
+#print axioms Abmarl.broadcast_reset_forgets
+#print axioms Abmarl.broadcast_fresh_twin
